@@ -96,6 +96,50 @@ func TestRAC_C06(t *testing.T) {
 			w.stump = Stump{Roots: w.spec.Roots(), NumLeaves: w.spec.n}
 			checkStateAgainstSpec(res, w, h, fmt.Sprintf("after-undo-depth-%d", d))
 		}
+		// for every undo depth: a world rebuilt to "h applied, d blocks undone" must evolve under DIFFERENT blocks
+		// exactly as if the undone blocks had never been applied (full view, not only the roots)
+		for d := 1; d <= maxDepth; d++ {
+			for _, altKind := range []string{"add-only", "delete-first-and-last+add"} {
+				w2 := newWorld(cfgs)
+				okb := true
+				for k := range h {
+					okb = okb && w2.applyAll(res, h, k, false)
+				}
+				if !okb {
+					break
+				}
+				for u := 1; u <= d; u++ {
+					bd := bds[len(h)-u]
+					safely(func() { w2.pol.Undo(uint64(len(bd.adds)), bd.proof, bd.delHashes, bd.prevRoots) })
+					for _, m := range w2.maps {
+						safely(func() { m.Undo(uint64(len(bd.adds)), bd.proof, bd.delHashes, bd.prevRoots) })
+					}
+				}
+				k := len(h) - d
+				w2.spec = specs[k].clone()
+				w2.stump = Stump{Roots: w2.spec.Roots(), NumLeaves: w2.spec.n}
+				var slots []uint64
+				for s := range w2.spec.alive {
+					slots = append(slots, s)
+				}
+				slots = sortedU64(slots)
+				alt := racBlock{Adds: 2}
+				if altKind != "add-only" {
+					if len(slots) == 0 {
+						continue
+					}
+					alt.Dels = []uint64{slots[0]}
+					if len(slots) > 1 {
+						alt.Dels = append(alt.Dels, slots[len(slots)-1])
+					}
+					alt.Adds = 1
+				}
+				h2 := append(append(racHistory{}, h[:k]...), alt)
+				if w2.applyAll(res, h2, len(h2)-1, true) {
+					checkStateAgainstSpec(res, w2, h2, fmt.Sprintf("history %s, %d blocks undone, then %s", h.String(), d, altKind))
+				}
+			}
+		}
 		// redo the same blocks from the oldest state reached, then one different block
 		k0 := len(h) - maxDepth
 		for k := k0; k < len(h); k++ {
